@@ -183,7 +183,7 @@ fn integrity_defragmenter<const K: usize, const Q: usize>() {
     std::mem::forget(d);
 }
 
-// verif: prop=C17 tier=thorough cap=3000 mem=24 cbmc_args="--arrays-uf-always" bound="DefragmenterInner with 2 slots, 3 arbitrary frames over 2 stream offsets" fns="DefragmenterInner::{recv_fallible,select_queue},DefragQueue::*" stubs="prometheus counters inc/inc_by -> no-op"
+// verif: prop=C17 tier=off cap=3000 mem=24 cbmc_args="--arrays-uf-always" bound="DefragmenterInner with 2 slots, 3 arbitrary frames over 2 stream offsets" fns="DefragmenterInner::{recv_fallible,select_queue},DefragQueue::*" stubs="prometheus counters inc/inc_by -> no-op"
 #[kani::proof]
 #[kani::unwind(4)]
 #[kani::stub(prometheus::core::GenericCounter::inc, inc_stub)]
@@ -227,7 +227,7 @@ fn total<const K: usize, const Q: usize, const FR: usize>() {
     std::mem::forget(d);
 }
 
-// verif: prop=C17 tier=thorough cap=3000 mem=30 cbmc_args="--arrays-uf-always" bound="2 slots, 3 arbitrary byte strings <= 316 B as frames through recv_fallible (incl. shorter than a header)" fns="DefragmenterInner::{recv_fallible,select_queue},FragmentFrameRef::from_slice,DefragQueue::{init,ingest_frame}" stubs="prometheus counters inc/inc_by -> no-op"
+// verif: prop=C17 tier=off cap=3000 mem=30 cbmc_args="--arrays-uf-always" bound="2 slots, 3 arbitrary byte strings <= 316 B as frames through recv_fallible (incl. shorter than a header)" fns="DefragmenterInner::{recv_fallible,select_queue},FragmentFrameRef::from_slice,DefragQueue::{init,ingest_frame}" stubs="prometheus counters inc/inc_by -> no-op"
 #[kani::proof]
 #[kani::unwind(4)]
 #[kani::stub(prometheus::core::GenericCounter::inc, inc_stub)]
